@@ -38,12 +38,21 @@ var Ops = []struct {
 	{"parse-bad", func() string { return parseDigest(specBad, false, false) }},
 	{"parse-three-lalr", func() string { return parseDigest(specThree, false, true) }},
 	// every kind of atom that consults a package-level character table, through both pattern front ends
-	{"ast-negated-unicode", func() string { return astDigest(`\P{L}+\P{Lu}\P{Greek}`) }},
-	{"ast-any-nondigit", func() string { return astDigest(`a.c\D\S\W`) }},
-	{"ast-classes", func() string { return astDigest(`[^[:alpha:]]\p{Ll}[[:word:]]\w[^a-c]`) }},
-	{"nfa-any-nonword", func() string { return patternDigest(`a.c\W\S\P{Ll}[^x]`) }},
+	{"ast-negated-unicode", func() string { return astDigest(`\P{L}\P{Lu}\P{Greek}`) }},
+	{"ast-any-nondigit", func() string { return astDigest(`.\D\S\W`) }},
+	{"ast-classes", func() string { return astDigest(`[^[:alpha:]]\p{Ll}\w[^a-c]`) }},
+	{"nfa-any-nonword", func() string { return patternDigest(`.\W\S\P{Ll}[^x]`) }},
 	{"parse-four-dfa", func() string { return parseDigest(specFour, true, false) }},
+	// two specifications in which the same texts play different roles (literal in one, pattern in the other; token
+	// name in one, rule name in the other; same grammar name): anything keyed by text alone confuses them
+	{"parse-five-dfa", func() string { return parseDigest(specFive, true, true) }},
+	{"parse-six-dfa", func() string { return parseDigest(specSix, true, true) }},
 }
+
+const (
+	specFive = "grammar same ;\nstart = \"a|b\" \".\" \"x?\" \"[ab]\" item ;\nitem = \"i\" ;\n"
+	specSix  = "grammar same ;\nAB = /a|b/ ;\nANY = /./ ;\nOPT = /x?y/ ;\nITEM = /[ab]/ ;\nstart = AB \"i\" OPT ITEM item ;\nitem = ANY ;\n"
+)
 
 const specFour = "grammar four ;\nNEG = /\\P{Lu}+x/ ;\nANY = /a.c/ ;\nNOND = /\\D\\d/ ;\nWS = $WS ;\nstart = NEG ANY NOND WS ;\n"
 
